@@ -306,23 +306,26 @@ def qr_find_scp(asce, ctx, msg):
     ds = dsutils.decode(msg.data_set, ctx.supported_ts.is_implicit_VR,
                         ctx.supported_ts.is_little_endian)
 
-    # make response
+    final_status = statuses.SUCCESS
+    try:
+        for data_set, status in asce.ae.on_receive_find(ctx, ds):
+            # one message object per match: a sent message is encoded later, by the
+            # DUL provider thread, and must not be modified any more
+            rsp = dimsemessages.CFindRSPMessage()
+            rsp.message_id_being_responded_to = msg.message_id
+            rsp.sop_class_uid = msg.sop_class_uid
+            rsp.status = int(status)
+            rsp.data_set = dsutils.encode(data_set,
+                                          ctx.supported_ts.is_implicit_VR,
+                                          ctx.supported_ts.is_little_endian)
+            asce.send(rsp, ctx.id)
+    except exceptions.EventHandlingError:
+        final_status = statuses.C_FIND_UNABLE_TO_PROCESS
+
     rsp = dimsemessages.CFindRSPMessage()
     rsp.message_id_being_responded_to = msg.message_id
     rsp.sop_class_uid = msg.sop_class_uid
-
-    gen = asce.ae.on_receive_find(ctx, ds)
-    for data_set, status in gen:
-        rsp.status = int(status)
-        rsp.data_set = dsutils.encode(data_set,
-                                      ctx.supported_ts.is_implicit_VR,
-                                      ctx.supported_ts.is_little_endian)
-        asce.send(rsp, ctx.id)
-
-    rsp = dimsemessages.CFindRSPMessage()
-    rsp.message_id_being_responded_to = msg.message_id
-    rsp.sop_class_uid = msg.sop_class_uid
-    rsp.status = int(statuses.SUCCESS)
+    rsp.status = int(final_status)
     asce.send(rsp, ctx.id)
 
 
